@@ -9,7 +9,7 @@ CONTRACTS = [c.ident for c in (
     sp.RadiusFromVolume(), sp.SurfaceFromRadius(), sp.RadiusFromSurface(), sp.PdeVolumeFromRadius(),
     sp.RadiusFromVolumeNd(), sp.VolumeFromRadiusNd(), sp.MakeRadiusFromVolume(), sp.MakeVolumeFromRadius(),
     sp.MakeSurfaceFromRadius(), sp.NdFactoryRadius(), sp.NdFactoryVolume(), sp.SurfaceOverloadDim1(),
-    dr.Volume(), dr.SurfaceArea(), dr.Curvature(), dr.BBox(), dr.VolumeSetter(), dr.SetThenGetVolume(), dr.FromVolume())]
+    dr.Volume(), dr.SurfaceArea(), dr.Curvature(), dr.BBox(), dr.VolumeSetter(), dr.SetThenGetVolume(), dr.FromVolume(), dr.SetState())]
 LEMMAS = ["V_d-and-S_d-injective-on-nonnegative-radii", "conversion-round-trips", "surface-is-derivative-of-volume"]
 BOUNDED = [ContractSampling("conversions-sampled", CONTRACTS,
                             "each variant on 18 (quick) / 206 (thorough) radii/volumes spanning 1e-15..1e15, scalar and (2,3)-array, droplet accessors on 6/80 droplets per class and dimension, "
